@@ -208,6 +208,7 @@ struct Body {
     id: String,
     len: u64,
     ok: bool,
+    kind: String,
 }
 /// Every line of a JSONL file as the list of JSON bodies found on it (a concatenated line has two).
 fn read_bodies(path: &Path) -> Vec<Vec<Body>> {
@@ -233,6 +234,7 @@ fn split_bodies(bytes: &[u8]) -> (Vec<Vec<Body>>, bool) {
                 None => break,
                 Some(Ok(v)) => {
                     let end = de.byte_offset();
+                    let kind = v.get("type").and_then(|t| t.as_str()).unwrap_or("").to_string();
                     match serde_json::from_value::<Event>(v) {
                         Ok(e) => bodies.push(Body {
                             stream: e.stream_id().to_string(),
@@ -242,13 +244,14 @@ fn split_bodies(bytes: &[u8]) -> (Vec<Vec<Body>>, bool) {
                             id: e.id.clone(),
                             len: (end - start) as u64,
                             ok: true,
+                            kind,
                         }),
-                        Err(_) => bodies.push(Body { stream: String::new(), continuity: false, session: false, seq: 0, id: String::new(), len: 0, ok: false }),
+                        Err(_) => bodies.push(Body { stream: String::new(), continuity: false, session: false, seq: 0, id: String::new(), len: 0, ok: false, kind: String::new() }),
                     }
                     start = end;
                 }
                 Some(Err(_)) => {
-                    bodies.push(Body { stream: String::new(), continuity: false, session: false, seq: 0, id: String::new(), len: 0, ok: false });
+                    bodies.push(Body { stream: String::new(), continuity: false, session: false, seq: 0, id: String::new(), len: 0, ok: false, kind: String::new() });
                     break;
                 }
             }
@@ -355,11 +358,64 @@ fn reads_differ(root: &Path, threads: &[String], scratch: &Path, tag: &str) -> O
     }
     Some("reads differ".into())
 }
+/// Executable class of a "reads differ with caches as found vs removed" violation, computed from the files
+/// of thread `id` in `root` (names shared with the C04 harness):
+/// * the full sidecar is well-formed (one frame per line, seqs 0..m-1, m >= 1) and a proper prefix of the
+///   thread's truth stream  => full_sidecar_wellformed_stale_prefix (S3, read side)
+/// * else the mr / comp sidecar is well-formed but not the projection of the truth stream on its frame kinds
+///   => derived_sidecar_wellformed_not_projection (S4)
+/// * a mr / comp sidecar with a line that is not exactly one frame => derived_sidecar_malformed_not_ignored
+/// * else, for a crash point inside / before the index writers => derived_index_wellformed_not_projection (S4)
+fn classify_cache_state(root: &Path, id: &str, point: &str, default: &str) -> String {
+    let truth: Vec<Body> = read_bodies(&truth_path(root)).into_iter().flatten().filter(|b| b.ok && b.continuity && b.stream == id).collect();
+    let dir = data_dir(root).join("continuity_streams");
+    let wellformed = |p: &Path| -> Option<Vec<Body>> {
+        if !p.exists() {
+            return None;
+        }
+        let ls = read_bodies(p);
+        if ls.iter().any(|l| l.len() != 1 || !l[0].ok || l[0].stream != id) {
+            return None;
+        }
+        Some(ls.into_iter().flatten().collect())
+    };
+    if let Some(f) = wellformed(&side_path(root, id)) {
+        let contiguous = f.iter().enumerate().all(|(i, b)| b.seq == i as u64);
+        if !f.is_empty() && contiguous && f.len() < truth.len() && f.iter().zip(truth.iter()).all(|(a, b)| a.id == b.id) {
+            return "full_sidecar_wellformed_stale_prefix".into();
+        }
+    }
+    let proj = |kinds: &[&str]| -> Vec<String> { truth.iter().filter(|b| kinds.contains(&b.kind.as_str())).map(|b| b.id.clone()).collect() };
+    for (file, kinds) in [
+        (format!("{id}.mr.v1.jsonl"), &["continuity_message_appended", "continuity_run_ended"][..]),
+        (format!("{id}.comp.v1.jsonl"), &["continuity_compaction_checkpoint_created"][..]),
+    ] {
+        match wellformed(&dir.join(&file)) {
+            Some(m) => {
+                let ids: Vec<String> = m.iter().map(|b| b.id.clone()).collect();
+                if ids != proj(kinds) {
+                    return "derived_sidecar_wellformed_not_projection".into();
+                }
+            }
+            // a line that is not one frame (torn by a crash between body and newline, the next append glued on)
+            None if dir.join(&file).exists() => return "derived_sidecar_malformed_not_ignored".into(),
+            None => {}
+        }
+    }
+    let index_window = ["cache.side.flushed", "cache.side.indexed", "cache.mr.flushed", "cache.mr.seek", "cache.mr.msgidx", "cache.mr.done", "cache.comp.flushed"];
+    if index_window.contains(&point) || point.starts_with("msgidx.") || point.starts_with("seekidx.") || point.starts_with("ordidx.") || point.starts_with("compidx.") {
+        return "derived_index_wellformed_not_projection".into();
+    }
+    default.to_string()
+}
+
 fn trunc(s: &str) -> String {
     s.chars().take(160).collect()
 }
 
 // ------------------------------------------------------------------ Coq terms
+/// Code of a crash point the model has an `IPt` for; 0 = a point inside the derived caches (mr / comp
+/// sidecars, seek / message / ordinal / checkpoint indexes, snapshots): checked by the oracle only.
 fn point_code(name: &str) -> u64 {
     match name {
         "log.before_lock" => 1,
@@ -380,12 +436,17 @@ fn point_code(name: &str) -> u64 {
         "cache.side.body" => 22,
         "cache.side.nl" => 23,
         "cache.side.flushed" => 24,
-        "cache.side.derived" => 25,
-        "idx.tmp_written" => 31,
-        "idx.renamed" => 32,
-        "art.tmp_written" => 33,
-        "art.renamed" => 34,
-        _ => 99,
+        "idx.before_tmp" => 51,
+        "idx.tmp_written" => 52,
+        "idx.renamed" => 53,
+        "art.before_tmp" => 54,
+        "art.tmp_written" => 55,
+        "art.renamed" => 56,
+        "cache.rebuild.created" => 61,
+        "cache.rebuild.body" => 62,
+        "cache.rebuild.nl" => 63,
+        "cache.rebuild.flushed" => 64,
+        _ => 0,
     }
 }
 
@@ -400,8 +461,9 @@ fn model_op(op: &Op, lens: &[u64], new_thread: u64) -> MOp {
         Op::Ensure => format!("OEnsure {} {}", new_thread, l(0)),
         Op::Msg { t, .. } | Op::RunSpawned { t } | Op::RunEnded { t } | Op::Cursor { t } | Op::SideFx { t } => format!("OAppend {} {}", t, l(0)),
         Op::Sess { s, .. } => format!("OSess {} {}", s, l(0)),
-        Op::Checkpoint { t } => format!("OCheckpoint {} {}", t, l(0)),
-        Op::Branch { t } | Op::Handoff { t } => format!("OBranch {} {} {} {}", t, new_thread, l(0), l(1)),
+        Op::Checkpoint { t } => format!("OCheckpoint {} 0 {} {}", t, if lens.is_empty() { "false" } else { "true" }, l(0)),
+        Op::Branch { t } => format!("OBranch {} {} {} {}", t, new_thread, l(0), l(1)),
+        Op::Handoff { t } => format!("OHandoff {} {} 0 {} {}", t, new_thread, l(0), l(1)),
         Op::DropSideRead { t } => format!("ODropRead {}", t),
     };
     MOp { term }
@@ -453,7 +515,7 @@ fn truth_len(root: &Path) -> u64 {
 }
 
 fn run_workload(ops: &[Op], scratch: &Path, wl_json: serde_json::Value, with_model: bool, res: &mut RunResult) -> Vec<CaseOut> {
-    let root = scratch.join("primary");
+    let root = scratch.join("live");
     let _ = std::fs::remove_dir_all(&root);
     let mut w = World::open(&root, vec![], BTreeMap::new(), vec![]);
     let snaps: Arc<Mutex<Vec<Snap>>> = Arc::new(Mutex::new(vec![]));
@@ -497,9 +559,18 @@ fn run_workload(ops: &[Op], scratch: &Path, wl_json: serde_json::Value, with_mod
         // analyse the crash points of this op (ids of its frames are known now)
         let mine: Vec<Snap> = std::mem::take(&mut *snaps.lock().unwrap());
         for s in mine {
-            let c = analyse(&s, i, point_ordinal, &w, &recs, &acked, &fids, ops, scratch, &wl_json, with_model);
-            point_ordinal += 1;
-            let _ = std::fs::remove_dir_all(&s.dir);
+            // the snapshot is restarted AT THE PATH OF THE LIVE STORE (the workspace path is the key of
+            // index.json and of continuity_created frames): park the live tree, move the snapshot in
+            let parked = scratch.join("parked");
+            std::fs::rename(&root, &parked).expect("park live store");
+            std::fs::rename(&s.dir, &root).expect("move snapshot in");
+            let modelled = point_code(s.name) != 0;
+            let c = analyse(&s, &root, i, point_ordinal, &w, &recs, &acked, &fids, ops, scratch, &wl_json, with_model && modelled);
+            if modelled {
+                point_ordinal += 1;
+            }
+            let _ = std::fs::remove_dir_all(&root);
+            std::fs::rename(&parked, &root).expect("unpark live store");
             out.push(c);
         }
         if r.is_ok() {
@@ -515,6 +586,7 @@ fn run_workload(ops: &[Op], scratch: &Path, wl_json: serde_json::Value, with_mod
 #[allow(clippy::too_many_arguments)]
 fn analyse(
     s: &Snap,
+    root: &Path,
     op_index: usize,
     point_ordinal: usize,
     w: &World,
@@ -534,7 +606,7 @@ fn analyse(
     let mut obs = vec![point_code(s.name)];
     {
         let ids = Ids { threads: &threads0, sess: &w.sess_ids, fids: &fids };
-        enc_disk(&mut obs, &s.dir, &ids, nthreads0);
+        enc_disk(&mut obs, root, &ids, nthreads0);
     }
     // facts used to classify a violation (executable class)
     let inflight_stream = match &ops[op_index] {
@@ -542,14 +614,15 @@ fn analyse(
         Op::Branch { .. } | Op::Handoff { .. } => threads0.last().cloned(),
         _ => None,
     };
-    let truth_snap = read_bodies(&truth_path(&s.dir));
+    let truth_snap = read_bodies(&truth_path(root));
     let stale_window = inflight_stream.as_ref().map(|x| {
         let n = truth_snap.iter().flatten().filter(|b| b.continuity && b.stream == *x).count();
-        let sp = side_path(&s.dir, x);
+        let sp = side_path(root, x);
         let m = read_bodies(&sp).iter().flatten().count();
         sp.exists() && m >= 1 && n == m + 1 && matches!(s.name, "log.body_written" | "log.nl_written" | "log.flushed" | "cont.logged" | "cache.side.opened" | "cache.side.body" | "cache.side.nl")
     });
-    let torn_at_snap = std::fs::read(truth_path(&s.dir)).map(|b| !b.is_empty() && *b.last().unwrap() != b'\n').unwrap_or(false);
+    let torn_at_snap = std::fs::read(truth_path(root)).map(|b| !b.is_empty() && *b.last().unwrap() != b'\n').unwrap_or(false);
+    // class of a numbering / duplicate / replay violation
     let classify = |streams: &[String], default: &str| -> String {
         if torn_at_snap {
             return "crash_between_truth_body_and_newline".into();
@@ -560,18 +633,22 @@ fn analyse(
         default.to_string()
     };
     // ---- reads on the recovered store before any further write
-    if let Some(d) = reads_differ(&s.dir, &threads0, scratch, "r0") {
+    if let Some(d) = reads_differ(root, &threads0, scratch, "r0") {
         let stream: Vec<String> = d.strip_prefix("thread#").and_then(|r| r.split(' ').next()).and_then(|n| n.parse::<usize>().ok()).and_then(|i| threads0.get(i).cloned()).into_iter().collect();
-        violations.push((format!("after restart at {} (op {op_index}): {d}", s.name), classify(&stream, "reads_differ_after_restart")));
+        let class = match stream.first() {
+            Some(id) => classify_cache_state(root, id, s.name, "reads_differ_after_restart"),
+            None => "reads_differ_after_restart".into(),
+        };
+        violations.push((format!("after restart at {} (op {op_index}): {d}", s.name), class));
     }
     // ---- restart + follow-up operations
     let more = followups(nthreads0, w.sess_ids.len());
-    let mut w2 = World::open(&s.dir, threads0.clone(), w.last_msg.clone(), w.sess_ids.clone());
+    let mut w2 = World::open(root, threads0.clone(), w.last_msg.clone(), w.sess_ids.clone());
     let mut more_recs: Vec<OpRec> = vec![];
     let mut acked2: Vec<String> = acked.to_vec();
     let nprim = ops.len();
     for (j, op) in more.iter().enumerate() {
-        let before = truth_len(&s.dir);
+        let before = truth_len(root);
         let tb = w2.threads.len();
         let r = std::panic::catch_unwind(std::panic::AssertUnwindSafe(|| w2.exec(op)));
         let r = match r {
@@ -581,7 +658,7 @@ fn analyse(
                 Err("panic".into())
             }
         };
-        let frames = diff_frames(&s.dir, before);
+        let frames = diff_frames(root, before);
         for (k, b) in frames.iter().enumerate() {
             if b.ok {
                 fids.entry(b.id.clone()).or_insert(4 * (nprim + j) as u64 + k as u64);
@@ -590,7 +667,7 @@ fn analyse(
         if r.is_ok() {
             acked2.extend(frames.iter().filter(|b| b.ok).map(|b| b.id.clone()));
             // numbering continues: the new frame's seq is the number of earlier frames of its stream
-            let all: Vec<Body> = read_bodies(&truth_path(&s.dir)).into_iter().flatten().collect();
+            let all: Vec<Body> = read_bodies(&truth_path(root)).into_iter().flatten().collect();
             for b in frames.iter().filter(|b| b.ok) {
                 let pos = all.iter().position(|x| x.id == b.id).unwrap_or(0);
                 let earlier = all[..pos].iter().filter(|x| x.ok && x.stream == b.stream && x.continuity == b.continuity && x.session == b.session).count() as u64;
@@ -608,8 +685,8 @@ fn analyse(
     let sess1 = w2.sess_ids.clone();
     drop(w2);
     // ---- oracle on the final store
-    let fresh = EventLog::new(truth_path(&s.dir)).expect("log");
-    let lines = read_bodies(&truth_path(&s.dir));
+    let fresh = EventLog::new(truth_path(root)).expect("log");
+    let lines = read_bodies(&truth_path(root));
     let mut bad_lines = 0;
     let mut counters: HashMap<(bool, bool, String), u64> = HashMap::new();
     let mut bad_streams: Vec<String> = vec![];
@@ -651,9 +728,13 @@ fn analyse(
             violations.push((format!("acknowledged frame {} occurs {n} times after a crash at {} (op {op_index})", fids.get(id).cloned().unwrap_or(0), s.name), classify(&[], "acked_not_exactly_once")));
         }
     }
-    if let Some(d) = reads_differ(&s.dir, &threads1, scratch, "r1") {
+    if let Some(d) = reads_differ(root, &threads1, scratch, "r1") {
         let stream: Vec<String> = d.strip_prefix("thread#").and_then(|r| r.split(' ').next()).and_then(|n| n.parse::<usize>().ok()).and_then(|i| threads1.get(i).cloned()).into_iter().collect();
-        violations.push((format!("after crash at {} (op {op_index}), restart and follow-ups: {d}", s.name), classify(&stream, "reads_differ_after_followups")));
+        let class = match stream.first() {
+            Some(id) => classify_cache_state(root, id, s.name, "reads_differ_after_followups"),
+            None => "reads_differ_after_followups".into(),
+        };
+        violations.push((format!("after crash at {} (op {op_index}), restart and follow-ups: {d}", s.name), class));
     }
     // ---- model case
     for r in &more_recs {
@@ -661,10 +742,11 @@ fn analyse(
     }
     {
         let ids = Ids { threads: &threads1, sess: &sess1, fids: &fids };
-        enc_disk(&mut obs, &s.dir, &ids, threads1.len());
+        enc_disk(&mut obs, root, &ids, threads1.len());
     }
     obs.push((replay.is_ok()) as u64);
     let modelled = with_model && ops.iter().all(supported_by_model);
+    let _ = torn_at_snap;
     let hist: Vec<String> = recs.iter().map(|r| model_op(&r.op, &r.lens, r.new_thread).term).collect();
     // ops of the workload that have not run yet are irrelevant to the crash point: the model gets hist = ops up to and including the in-flight one
     let more_t: Vec<String> = more_recs.iter().map(|r| model_op(&r.op, &r.lens, r.new_thread).term).collect();
